@@ -380,7 +380,7 @@ Definition apply_func (name : bstr) (args : list value) : outcome fres :=
     | [VInt i; VInt lim] => Ok (FNewList (range_list (Z.to_nat (lim - i)) i lim 1))
     | [VInt i; VInt lim; VInt step] =>
         if (step <=? 0)%Z then Err e_range
-        else Ok (FNewList (range_list (Z.to_nat (lim - i)) i lim step))
+        else Ok (FNewList (range_list (Z.to_nat ((lim - i) / step + 1)) i lim step))   (* fuel >= the number of elements *)
     | _ => Err e_type
     end
   else if fn_is name n_hasData then Ok (FVal (VBool true))
